@@ -777,11 +777,18 @@ def oracle_block(case):
                 "blockarray": str(blk[:3]), "flat": str(flat[:3])}
     if blk[0] == "err":
         return None
+    # decision margins of the flat run (the same problem through the instrumented runner): a step whose decision is within
+    # rounding of its boundary (e.g. a converged coordinate: dx = 0 exactly in one run, 1 ulp in the other) ends the comparison
+    flatcase = {**G.pack_problem(np.diag(np.asarray(case["q"], dtype=np.float64)), case["b"], 0.0, "zero", 1.0, case["x0"], case["L0"], False, "block"),
+                "policy": case["policy"], "accel": case["accel"], "steps": case["steps"]}
+    recs = G.run_real(flatcase)
     for i, (a, b_) in enumerate(zip(blk[1], flat[1])):
+        if i < len(recs) and not recs[i]["raised"] and _near_tie(case["policy"]["kind"], recs[i], case["policy"]):
+            return None
         if not _rel(a, b_, 8, 1e-10):
             return {"why": "L differs between a BlockArray variable and the concatenated array", "step": i, "L_block": a, "L_flat": b_,
                     "policy": case["policy"]}
-        if not common.allclose(blk[2][i], flat[2][i], None, 1e-8):
+        if not _vec_close(blk[2][i], flat[2][i], 1e-8):
             return {"why": "iterates differ between a BlockArray variable and the concatenated array", "step": i}
     return None
 
